@@ -1,7 +1,7 @@
 """C02 — the six comparison operators agree with one another."""
 import random
 
-from harness import common, core, gens, schemes, text, vers
+from harness import common, core, dense, gens, schemes, text, vers
 
 COMPARATOR_EXPECT = {">=": lambda o: o[5], "<=": lambda o: o[3], "!=": lambda o: o[1], "<": lambda o: o[2], ">": lambda o: o[4], "=": lambda o: o[0]}
 
@@ -55,6 +55,7 @@ def run(ctx):
             except Exception:  # noqa
                 continue
             pairs += [(vb, vx), (vx, vb)]
+        pairs += dense.pairs(r, cls, 6 if ctx.tier == "quick" else 60, 400 if ctx.tier == "quick" else 6000)   # same base, small variations (harness/dense.py)
         nviol = 0
         for a, b in pairs:
             o = schemes.impl_pair(a, b)
